@@ -470,3 +470,147 @@ Proof.
       inversion Hs; subst n1. rewrite Forall_forall in IH, Hall.
       destruct (IH _ Hin o n' (Hall _ Hin) Ho E) as [H _]. exact H.
 Qed.
+
+(* ------------------------------------------------------------------ F3, F5 *)
+Lemma copy_fs_if_ok_inv c pt now src dst d' : copy_fs_if c pt now src dst = Ok d' ->
+  is_dir src = true /\ is_dir dst = true /\
+  exists d1, cs_node now src (Some dst) = Ok d1 /\ cf_node c pt now src (Some d1) = Ok d'.
+Proof.
+  unfold copy_fs_if. destruct src as [sd sm|se sm]; [discriminate|].
+  destruct dst as [dd dm|de dm]; [discriminate|].
+  destruct (cs_node now (Dir se sm) (Some (Dir de dm))) as [d1|e|x] eqn:E; try discriminate.
+  intro H. split; [reflexivity|]. split; [reflexivity|]. exists d1. split; [reflexivity|exact H].
+Qed.
+
+(* STATEMENT CHANGED (model change announced by the model's author while this file was written):
+   `stamp` now also takes the bytes and the node the destination held under that name (an empty
+   file written over an existing file keeps the old time); at a source-file path that node is
+   `lookup dst p`, since copy_structure leaves it alone. *)
+Theorem copy_fs_if_lookup_u : forall c pt now src dst d', uniq src -> uniq dst ->
+  copy_fs_if c pt now src dst = Ok d' ->
+  forall p,
+    match lookup src p with
+    | Some (File data m) =>
+        lookup d' p = if cond_spec c m (dst_state (lookup dst p))
+                      then Some (File data (stamp pt now m data (lookup dst p))) else lookup dst p
+    | Some (Dir _ _) =>
+        exists e', lookup d' p = Some (Dir e' (match lookup dst p with Some (Dir _ dm) => dm | _ => now end))
+    | None => lookup d' p = lookup dst p
+    end.
+Proof.
+  intros c pt now src dst d' Hus Hud Hc p.
+  destruct (copy_fs_if_ok_inv _ _ _ _ _ _ Hc) as (Hds & Hdd & d1 & Hcs & Hcf).
+  destruct (cs_node_main now src (Some dst) d1 Hds Hus Hud Hcs) as [Hu1 H1].
+  specialize (H1 p). pose proof (cf_node_main c pt now src (Some d1) d' Hus Hcf p) as H2.
+  cbn [olookup] in H1, H2. unfold cs_spec in H1. unfold cf_spec in H2.
+  destruct (lookup src p) as [[data m|se sm]|].
+  - rewrite H1 in H2. destruct H2 as [_ H2]. rewrite <- copy_is_necessary_spec. exact H2.
+  - destruct H1 as [e1 H1]. destruct H2 as (e2 & e' & dm & H2 & H3).
+    rewrite H1 in H2. inversion H2; subst. exists e'. exact H3.
+  - rewrite H2. exact H1.
+Qed.
+Print Assumptions copy_fs_if_lookup_u.
+
+Theorem copy_fs_if_uniq : forall c pt now src dst d', uniq src -> uniq dst ->
+  copy_fs_if c pt now src dst = Ok d' -> uniq d' /\ is_dir d' = true.
+Proof.
+  intros c pt now src dst d' Hus Hud Hc.
+  destruct (copy_fs_if_ok_inv _ _ _ _ _ _ Hc) as (Hds & Hdd & d1 & Hcs & Hcf).
+  destruct (cs_node_main now src (Some dst) d1 Hds Hus Hud Hcs) as [Hu1 _].
+  exact (cf_node_uniq c pt now src (Some d1) d' Hus Hu1 Hcf).
+Qed.
+Print Assumptions copy_fs_if_uniq.
+
+(* ------------------------------------------------------------------ F4: when the file loop fails *)
+Lemma cf_err c pt now : forall s o e, uniq s -> cf_node c pt now s o = Err e ->
+  e = FileExpected /\
+  exists p data m de dm, lookup s p = Some (File data m) /\ olookup o p = Some (Dir de dm) /\
+                         copy_is_necessary c m (Some dm) = true.
+Proof.
+  induction s as [data m|sents sm0 IH] using node_ind'; intros o e Hu Hcf; [discriminate|].
+  rewrite cf_node_unfold in Hcf. apply uniq_dir in Hu as [Hnd Hall].
+  destruct o as [[dd0 dm0|de dm0]|]; try discriminate.
+  destruct (gsub (cf_step c pt now) sents de) as [ents|e1|x] eqn:Hg; try discriminate.
+  inversion Hcf; subst e1.
+  destruct (gsub_err _ _ _ _ Hnd Hg) as (k & n & Ea & Hs).
+  destruct n as [data m|se' sm']; cbn [cf_step] in Hs.
+  - destruct (copy_is_necessary c m (dst_state (assoc k de))) eqn:Ec; [|discriminate].
+    destruct (assoc k de) as [[od om|oe om]|] eqn:Eo; try discriminate.
+    inversion Hs; subst e. split; [reflexivity|].
+    exists [k], data, m, oe, om. split; [|split].
+    + rewrite lookup_dir_cons, Ea. reflexivity.
+    + rewrite olookup_child. cbn [child]. rewrite Eo. reflexivity.
+    + exact Ec.
+  - destruct (cf_node c pt now (Dir se' sm') (assoc k de)) as [n1|e1|x] eqn:E; try discriminate.
+    inversion Hs; subst e1.
+    pose proof (assoc_some_In _ _ _ Ea) as Hin. rewrite Forall_forall in IH, Hall.
+    destruct (IH _ Hin (assoc k de) e (Hall _ Hin) E) as (He & p & data & m & de' & dm' & Hl & Ho & Hc).
+    split; [exact He|]. exists (k :: p), data, m, de', dm'. split; [|split].
+    + rewrite lookup_dir_cons, Ea. exact Hl.
+    + rewrite olookup_child. exact Ho.
+    + exact Hc.
+Qed.
+
+Lemma cf_nocrash c pt now : forall s o x, uniq s -> is_dir s = true ->
+  (forall p se sm, lookup s p = Some (Dir se sm) -> exists e m, olookup o p = Some (Dir e m)) ->
+  cf_node c pt now s o = Crash x -> False.
+Proof.
+  induction s as [data m|sents sm0 IH] using node_ind'; intros o x Hu Hd Hdirs Hcf; [discriminate|].
+  rewrite cf_node_unfold in Hcf. apply uniq_dir in Hu as [Hnd Hall].
+  destruct (Hdirs [] sents sm0 eq_refl) as (de & dm0 & Ho). rewrite olookup_nil in Ho. subst o.
+  destruct (gsub (cf_step c pt now) sents de) as [ents|e1|x1] eqn:Hg; try discriminate.
+  inversion Hcf; subst x1.
+  destruct (gsub_crash _ _ _ _ Hnd Hg) as (k & n & Ea & Hs).
+  destruct n as [data m|se' sm']; cbn [cf_step] in Hs.
+  - destruct (copy_is_necessary c m (dst_state (assoc k de))); [|discriminate].
+    destruct (assoc k de) as [[od om|oe om]|]; discriminate.
+  - destruct (cf_node c pt now (Dir se' sm') (assoc k de)) as [n1|e1|x1] eqn:E; try discriminate.
+    inversion Hs; subst x1.
+    pose proof (assoc_some_In _ _ _ Ea) as Hin. rewrite Forall_forall in IH, Hall.
+    apply (IH _ Hin (assoc k de) x (Hall _ Hin) eq_refl); [|exact E].
+    intros p se sm Hl. specialize (Hdirs (k :: p) se sm).
+    rewrite lookup_dir_cons, Ea in Hdirs. rewrite olookup_child in Hdirs. exact (Hdirs Hl).
+Qed.
+
+Theorem copy_fs_if_outcome_u : forall c pt now src dst,
+  is_dir src = true -> is_dir dst = true -> uniq src -> uniq dst ->
+  (dir_clash src dst /\ copy_fs_if c pt now src dst = Err DirectoryExpected) \/
+  (~ dir_clash src dst /\ file_clash c src dst /\ copy_fs_if c pt now src dst = Err FileExpected) \/
+  (~ dir_clash src dst /\ ~ file_clash c src dst /\ exists d', copy_fs_if c pt now src dst = Ok d').
+Proof.
+  intros c pt now src dst Hds Hdd Hus Hud.
+  assert (Hunf : copy_fs_if c pt now src dst =
+                 match cs_node now src (Some dst) with
+                 | Ok d1 => cf_node c pt now src (Some d1)
+                 | Err e => Err e
+                 | Crash x => Crash x
+                 end).
+  { destruct src as [sd sm|se sm]; [discriminate|]. destruct dst as [dd dm|de dm]; [discriminate|].
+    reflexivity. }
+  rewrite Hunf. clear Hunf.
+  destruct (cs_node now src (Some dst)) as [d1|e|x] eqn:Ecs.
+  - assert (Hnc : ~ dir_clash src dst).
+    { intros (p & se & sm & dd & dm & Hl & Ho).
+      exact (cs_ok_noclash now src (Some dst) d1 Hus Ecs p se sm dd dm Hl Ho). }
+    destruct (cs_node_main now src (Some dst) d1 Hds Hus Hud Ecs) as [Hu1 H1].
+    right. destruct (cf_node c pt now src (Some d1)) as [d'|e|x] eqn:Ecf.
+    + right. split; [exact Hnc|]. split; [|exists d'; reflexivity].
+      intros (p & data & m & de & dm & Hl & Ho & Hc).
+      specialize (H1 p). pose proof (cf_node_main c pt now src (Some d1) d' Hus Ecf p) as H2.
+      rewrite Hl in H1, H2. cbn [olookup] in H1, H2. unfold cs_spec in H1. unfold cf_spec in H2.
+      destruct H2 as [Hno _]. rewrite H1, Ho in Hno. cbn [dst_state node_mt] in Hno.
+      exact (Hno Hc de dm eq_refl).
+    + left. destruct (cf_err c pt now src (Some d1) e Hus Ecf)
+        as (He & p & data & m & de & dm & Hl & Ho & Hc).
+      subst e. split; [exact Hnc|]. split; [|reflexivity].
+      exists p, data, m, de, dm. split; [exact Hl|]. split; [|exact Hc].
+      specialize (H1 p). rewrite Hl in H1. cbn [olookup] in H1, Ho. unfold cs_spec in H1.
+      rewrite <- H1. exact Ho.
+    + exfalso. apply (cf_nocrash c pt now src (Some d1) x Hus Hds); [|exact Ecf].
+      intros p se sm Hl. specialize (H1 p). rewrite Hl in H1. unfold cs_spec in H1.
+      destruct H1 as [e' H1]. cbn [olookup]. rewrite H1. eexists. eexists. reflexivity.
+  - left. destruct (cs_err now src (Some dst) e Hus Ecs) as [He Hex]. subst e.
+    split; [exact Hex|reflexivity].
+  - exfalso. exact (cs_nocrash now src (Some dst) x Hus Hds Ecs).
+Qed.
+Print Assumptions copy_fs_if_outcome_u.
